@@ -910,14 +910,17 @@ Theorem targets_default_world_documented {W} (exports : list (str * wit_export W
   targets_default_counts_all_exports = false \/ forallb (fun e => is_world_export (snd e)) exports = true ->
   select_world exports None = documented_world exports None.
 Proof.
-  unfold select_world, documented_world, default_candidates, worlds_of. intros H.
-  assert (filter (fun e => is_world_export (snd e)) exports = exports \/ targets_default_counts_all_exports = false) as Hf.
-  { destruct H as [H|H]; auto. left. induction exports as [|x l IH]; cbn in *; auto.
+  unfold select_world, documented_world, default_candidates, worlds_of.
+  (* uniform in the generated constant *)
+  generalize targets_default_counts_all_exports as flag. intros flag H.
+  assert (flag = false \/ filter (fun e => is_world_export (snd e)) exports = exports) as Hf.
+  { destruct H as [H|H]; [left; exact H | right].
+    induction exports as [|x l IH]; cbn in *; [reflexivity|].
     apply andb_true_iff in H. destruct H as [-> H]. now rewrite IH. }
-  destruct targets_default_counts_all_exports.
-  - destruct Hf as [-> | Hf]; [|discriminate].
-    destruct exports as [|[k e] [|? ?]]; auto. destruct e; reflexivity.
-  - destruct (filter _ exports) as [|[k e] [|? ?]]; auto. destruct e; reflexivity.
+  destruct flag.
+  - destruct Hf as [Hf | ->]; [discriminate|].
+    destruct exports as [|[k e] [|? ?]]; [reflexivity | destruct e; reflexivity | destruct e; reflexivity].
+  - destruct (filter _ exports) as [|[k e] [|? ?]]; [reflexivity | destruct e; reflexivity | destruct e; reflexivity].
 Qed.
 
 (** The documented default fails as soon as the WIT package also has an interface: the code
